@@ -503,3 +503,29 @@ def record_suite_calls(workdir, files=None, maxcalls=4000, timeout=1800):
           pass
   summary = (p.stdout.strip().splitlines() or [''])[-1]
   return events, summary
+
+
+# ----------------------------------------------------------------------------
+# Apalache (symbolic): inductive invariants of small machines over unbounded integers
+# ----------------------------------------------------------------------------
+def run_apalache(ctx, module, init, inv, length, timeout=300):
+  """apalache-mc check --init=<init> --inv=<inv> --length=<length> on spec/<module>.tla; MachineryError unless NoError"""
+  out = os.path.join(ctx.work, 'apalache_%s_%s' % (module, inv))
+  shutil.rmtree(out, ignore_errors=True)
+  cmd = ['apalache-mc', 'check', '--init=' + init, '--inv=' + inv, '--length=%d' % length, '--out-dir=' + out,
+         os.path.join(SPEC, module + '.tla')]
+  t0 = time.time()
+  try:
+    p = subprocess.run(cmd, capture_output=True, text=True, timeout=timeout, cwd=SPEC)
+  except (OSError, subprocess.TimeoutExpired) as e:
+    raise MachineryError('apalache-mc could not be run on %s: %s' % (module, e))
+  ok = 'The outcome is: NoError' in p.stdout
+  shutil.rmtree(out, ignore_errors=True)
+  for junk in ('detailed.log', 'log0.smt', 'x'):
+    pass
+  if not ok:
+    raise MachineryError('Apalache: %s does not establish %s from %s (length %d)\n%s' % (module, inv, init, length, p.stdout[-1500:]))
+  ctx.cmds.append(' '.join(cmd))
+  ctx.models.append(dict(module=module, tool='apalache', init=init, inv=inv, length=length, outcome='NoError',
+                         wall_s=round(time.time() - t0, 1)))
+  return True
